@@ -82,7 +82,9 @@ def blocksearch(block, name):
         Block OR False
     """
     if hasattr(block, 'tokens'):
-        for b in block.tokens[1]:
+        # (a mixin call without parentheses is a node whose second token,
+        # the argument list, is None)
+        for b in block.tokens[1] or ():
             b = (b if hasattr(b, 'raw') and b.raw() == name else blocksearch(
                 b, name))
             if b:
